@@ -637,7 +637,8 @@ def run(tier, seed):
             ck.add(lit)
             ck.add([pi.SUBS, lit, [0, 1, num(1)]])
         elif k < 0.5:
-            lit[3] = lit[3] + [lit[3][0] if lit[3] else 2]
+            # (a ZX type is a number of wires: its only object code is 1)
+            lit[3] = lit[3] + [lit[3][0] if lit[3] else (1 if c["cls"] == pi.CZX else 2)]
             ck.add(lit)
         elif k < 0.6 and c["cls"] != pi.CCAT:
             lit[5] = lit[5] + [0]
